@@ -21,18 +21,36 @@ from engines import c08
 
 RULE = ('warc: sequences of 2-5 exchanges (message grammar of C08: header formattings, Content-Length, chunked with '
         'extensions and trailers, read-until-close, overrun/surplus, content codings, no-body statuses, HEAD, POST with '
-        'a body) x random segmentations x {plain, gzip} WARC files; decode: as C08 with the notified bytes compared. '
+        'a body) x Stream options x a de-duplication table answering "seen" for some URLs (revisit records) x random segmentations x {plain, gzip} x {digests on, off} WARC files, read strictly by Content-Length; decode: as C08 with the notified bytes compared. '
         'non-trivial = at least one exchange completed; distinct by (exchange bytes, segmentation, request)')
 TRUSTED = c08.TRUSTED + ['harness WARC reader (WARC/1.0 framing by Content-Length, per-record gzip members)']
-ASSUMPTIONS = c08.ASSUMPTIONS + ['revisit records need a URL table; the sessions here run without one '
-                                 '(the revisit branch rewrites the block and is covered by C05)']
+ASSUMPTIONS = c08.ASSUMPTIONS + ['the URL table (--warc-dedup) is a stub that reports chosen URLs as seen; digests and '
+                                 'the remaining record fields are C05']
 UNPROVED = []
 
 C04_KINDS = {'notified-not-message', 'segmentation-dependent'}
 
 
-def gen_exchanges(rng, opts=(True, False)):
+REVISIT_ID = '<urn:uuid:11111111-2222-3333-4444-555555555555>'
+
+
+class DedupTable:
+    """What HTTPWARCRecorderSession needs of the URL table (--warc-dedup): for the URLs in
+    `seen` it answers 'this payload was archived before' with the id of that record."""
+
+    def __init__(self, seen):
+        self.seen = set(seen)
+        self.calls = []
+
+    def get_revisit_id(self, url, digest):
+        self.calls.append((url, digest))
+        return REVISIT_ID if url in self.seen else None
+
+
+def gen_exchanges(rng, opts=(True, False), dedup=False):
     exs = c08.gen_sequence(rng, opts)
+    for e in exs:
+        e['dedup'] = bool(dedup) and rng.random() < 0.5
     for k, e in enumerate(exs):
         if e['method'] == 'POST' and rng.random() < 0.7:
             e['req_body'] = bytes(rng.choice(b'abc=&123') for _ in range(rng.choice([0, 1, 7, 5000])))
@@ -51,17 +69,26 @@ def stream_warc(ctx, seqs):
             opts = tuple(opts)
             comp = i % 2 == 1
             prefix = os.path.join(tmp, 'w%d' % i)
+            table = None
+            if any(e.get('dedup') for e in exs) or (exs and exs[0].get('table')):
+                table = DedupTable('http://h' + e['path'] for e in exs if e.get('dedup'))
             params = WARCRecorderParams(compress=comp, log=False, temp_dir=tmp, software_string='verif',
-                                        digests=i % 3 != 0)
+                                        digests=i % 3 != 0, url_table=table)
             results, conns = H.real_session_sequence(exs, recorder_params={'filename': prefix, 'params': params},
                                                      keep_alive=opts[0], ignore_length=opts[1])
             path = prefix + ('.warc.gz' if comp else '.warc')
             case = {'stream': 'warc', 'compress': comp, 'opts': list(opts),
                     'exchanges': [{'segs': e['segs'], 'eof': e['eof'], 'method': e['method'], 'version': e['version'],
                                    'path': e['path'], 'msg': e['msg'].case(), 'surplus': e['surplus'],
-                                   'req_body': e.get('req_body'), 'req_fields': e.get('req_fields', [])} for e in exs]}
+                                   'req_body': e.get('req_body'), 'req_fields': e.get('req_fields', []),
+                                   'dedup': bool(e.get('dedup'))} for e in exs]}
             try:
                 records = H.read_warc(path)
+            except H.WarcFormatError as err:
+                # read strictly by the declared Content-Length: a wrong length is a failure
+                kind = 'revisit-length' if err.rtype == 'revisit' else 'record-length'
+                ctx.fail(kind, '_record_revisit' if err.rtype == 'revisit' else 'WARCRecorder', case, str(err))
+                continue
             except (Infra, ValueError, KeyError) as err:
                 ctx.fail('warc-unreadable', 'WARCRecorder', case, str(err))
                 continue
@@ -103,13 +130,20 @@ def stream_warc(ctx, seqs):
             for e, r, p, q in zip(exs, results, parts, reqs):
                 f = p.partition(':')[2].split(' | ')
                 if f[0].startswith('ok '):
-                    m_resp.append(f[2])
+                    m_resp.append((f[2], bool(e.get('dedup'))))
                 m_req.append(enc(bytes(H_dec(q)) + (e.get('req_body') or b'')))
-            real_resp = [enc(b) for f, b in recs if f.get('warc-type') == 'response']
+            # a revisit record keeps the header block only: the model cuts the recorded bytes
+            cut = ctx.model.ask(['http revisit ' + t for t, d in m_resp if d])
+            cut = iter(cut)
+            m_resp = [(next(cut) if d else t) for t, d in m_resp]
+            real_resp = [enc(b) for f, b in recs if f.get('warc-type') in ('response', 'revisit')]
             real_req = [enc(b) for f, b in recs if f.get('warc-type') == 'request']
             ok = sum(1 for r in results if r['x'].outcome == 'ok')
             ctx.case(('warc', tuple((tuple(e['segs']), e['eof'], e['method'], e.get('req_body')) for e in exs), case['compress']),
-                     nontrivial=ok > 0, tags=['warc:exchanges=%d' % len(results), 'warc:gz' if case['compress'] else 'warc:plain'])
+                     nontrivial=ok > 0, tags=['warc:exchanges=%d' % len(results), 'warc:gz' if case['compress'] else 'warc:plain',
+                                              'warc:opts=%s%s' % ('ka' if case['opts'][0] else 'noka', '+il' if case['opts'][1] else '')]
+                     + (['warc:dedup'] if any(e.get('dedup') for e in exs) else []))
+            ctx.tag('warc:revisit-records', sum(1 for f, b in recs if f.get('warc-type') == 'revisit'))
             if real_resp != m_resp or real_req != m_req[:len(real_req)]:
                 ctx.disagree('warc', {'exchanges': case['exchanges']},
                              {'response_blocks': [s[:300] for s in m_resp], 'request_blocks': [s[:300] for s in m_req]},
@@ -156,6 +190,17 @@ def check_warc(ctx, case, exs, results, recs, opts=(True, False)):
         want = e['msg'].message
         if H.relaxed_by_options(e['msg'], opts):
             want += e['surplus']        # ignore_length: the response extends to the peer's close
+        if e.get('dedup'):
+            # the table knows this payload: a revisit record, holding the header block the server sent
+            if pf.get('warc-type') != 'revisit':
+                ctx.fail('revisit-missing', '_record_revisit', case, 'exchange %d: the table reported the payload as seen but a %s '
+                         'record was written' % (k, pf.get('warc-type')))
+            want = e['msg'].head
+            if pf.get('warc-refers-to') != REVISIT_ID:
+                ctx.fail('revisit-fields', '_record_revisit', case, 'exchange %d: WARC-Refers-To %r' % (k, pf.get('warc-refers-to')))
+        elif pf.get('warc-type') != 'response':
+            ctx.fail('record-sequence', 'HTTPWARCRecorderSession', case, 'exchange %d: %s record for a payload the table does not know'
+                     % (k, pf.get('warc-type')))
         if pb != want:
             d = next((j for j, (a, b) in enumerate(zip(pb, want)) if a != b), min(len(pb), len(want)))
             ctx.fail('response-block-not-wire', 'response_data', case,
@@ -170,6 +215,25 @@ def check_warc(ctx, case, exs, results, recs, opts=(True, False)):
         ctx.fail('record-sequence', 'HTTPWARCRecorderSession', case, '%d surplus records at the end of the file' % (len(recs) - i))
 
 
+def fixed_dedup_sequences():
+    """revisit records between ordinary ones, every framing, with and without digests / gzip
+    (stream_warc alternates those by sequence index)"""
+    out = []
+    shapes = [(b'HTTP/1.1 200 OK\r\nContent-Length: 11\r\n\r\n', b'hello world', b'hello world', 'length'),
+              (b'HTTP/1.1 200 OK\nTransfer-Encoding: chunked\n\n', b'5;x\nhello\n0\nT: 1\n\n', b'hello', 'chunked'),
+              (b'HTTP/1.1 200 OK\r\nX: a\r\n b\r\nContent-Length: 0\r\n\r\n', b'', b'', 'length'),
+              (b'HTTP/1.1 304 NM\r\nContent-Length: 5\r\n\r\n', b'', b'', 'none')]
+    for rep in range(6):       # 6 consecutive indices: both compressions x all three digest phases
+        exs = []
+        for k, (head, framed, payload, framing) in enumerate(shapes + shapes[:1]):
+            m = c08._mk(head, framed, payload, code=304 if framing == 'none' else 200, framing=framing)
+            exs.append({'segs': fakenet.segment(m.message, [len(head)] if rep % 2 else []), 'eof': False, 'method': 'GET',
+                        'version': 'HTTP/1.1', 'path': '/p%d' % k, 'msg': m, 'surplus': b'', 'marker': b'',
+                        'dedup': k in (0, 1, 2, 3)})
+        out.append((exs, (True, False)))
+    return out
+
+
 def replay(ctx, case, kind=None, where=None):
     case = case.get('case', case)
     if case.get('stream') == 'warc':
@@ -180,6 +244,7 @@ def replay(ctx, case, kind=None, where=None):
             if e.get('req_body') is None:
                 e.pop('req_body', None)
             e['req_fields'] = [tuple(p) for p in e.get('req_fields', [])]
+            e['dedup'] = bool(e.get('dedup'))
             exs.append(e)
         o = tuple(case.get('opts', (True, False)))
         stream_warc(ctx, [(exs, o), (exs, o)])
@@ -224,10 +289,10 @@ def run(ctx):
     seqs = []
     for i in range(ctx.scale(250, 3000)):
         opts = H.OPTS[1 + (i // 4) % 3] if i % 4 >= 2 else (True, False)   # half default, half spread over the other three
-        seqs.append((gen_exchanges(wrng, opts), opts))
-    stream_warc(ctx, seqs)
+        seqs.append((gen_exchanges(wrng, opts, dedup=(i % 5) in (1, 2)), opts))      # 40% of the sequences run with --warc-dedup
+    stream_warc(ctx, fixed_dedup_sequences() + seqs)
 
 
 def search(ctx):
     rng = ctx.subrng('search')
-    stream_warc(ctx, [(gen_exchanges(rng, H.OPTS[i % 4]), H.OPTS[i % 4]) for i in range(ctx.scale(15, 30))])
+    stream_warc(ctx, [(gen_exchanges(rng, H.OPTS[i % 4], dedup=i % 2 == 0), H.OPTS[i % 4]) for i in range(ctx.scale(15, 30))])
